@@ -65,6 +65,8 @@ pub struct State {
     /// datagrams handed to the instant-forward channel (production forwards them to the client)
     pub instant_forwarded: Vec<Vec<u8>>,
     pub housekeeping_error: Option<String>,
+    /// last keepalive frame seen on the wire per address number (captured by `drain_wire`)
+    pub last_keepalive: HashMap<u8, Vec<u8>>,
 }
 
 pub struct Shell {
@@ -146,6 +148,7 @@ impl Shell {
                 recv_buf: vec![0u8; srtla_protocol::MTU],
                 instant_forwarded: Vec::new(),
                 housekeeping_error: None,
+                last_keepalive: HashMap::new(),
             },
         }
     }
@@ -332,6 +335,9 @@ impl Shell {
                         IpAddr::V4(v4) => v4.octets()[3].wrapping_sub(10),
                         _ => 255,
                     };
+                    if n >= 2 && buf[0] == 0x90 && buf[1] == 0x00 {
+                        self.st.last_keepalive.insert(addr, buf[..n].to_vec());
+                    }
                     out.push(WireEvt {
                         addr,
                         bytes: buf[..n].to_vec(),
